@@ -9,7 +9,8 @@ THEOREMS = ["Enc.store_exactly_once", "Enc.store_store_order", "Enc.store_load_o
 ENC_OPTION_SETS = [[], ["-term-encoding", "int"], ["-term-encoding", "stack_vars"], ["-term-encoding", "uninterpreted_int"],
                    ["-memory-encoding", "l_vars"], ["-push-basic", "-term-encoding", "int"], ["-pop-uninterpreted"], ["-order-bounds"],
                    ["-order-conflicts"], ["-at-most"], ["-no-output-before-pop"], ["-size"], ["-storage"], ["-no-simplification"],
-                   ["-pop-uninterpreted", "-order-bounds", "-term-encoding", "stack_vars"], ["-empty"]]
+                   ["-pop-uninterpreted", "-order-bounds", "-term-encoding", "stack_vars"], ["-empty"], ["-empty", "-term-encoding", "int"],
+                   ["-empty", "-pop-uninterpreted", "-term-encoding", "stack_vars"], ["-empty", "-push-basic", "-term-encoding", "int"]]
 BASE = ["-solver", "z3", "-tout", "5"]
 OPTION_SETS = [[], ["-term-encoding", "int"], ["-term-encoding", "stack_vars"], ["-term-encoding", "uninterpreted_int"],
                ["-memory-encoding", "l_vars"], ["-push-basic"], ["-pop-uninterpreted"], ["-order-bounds"], ["-order-conflicts"],
@@ -78,9 +79,10 @@ def enc_correspondence(tier, rng, c, violations, soft_out=None):
     FullEncoding object, must occur verbatim among the constraints the real encoder emits (premise of Enc.core_realizes)"""
     blocks = small_blocks(rng, 60 if tier == "quick" else 1200) + gen.blocks(rng.randrange(1 << 30), 40 if tier == "quick" else 600)
     if tier == "quick":
-        rest = ENC_OPTION_SETS[1:]
+        # the two families of transition constraints (boolean u variables / the `empty` constant) always, the rest in rotation
+        rest = [o for o in ENC_OPTION_SETS[1:] if o != ["-empty"]]
         k = rng.randrange(len(rest))
-        osets = [ENC_OPTION_SETS[0]] + [rest[(k + 3 * i) % len(rest)] for i in range(5)]
+        osets = [ENC_OPTION_SETS[0], ["-empty"]] + [rest[(k + 3 * i) % len(rest)] for i in range(4)]
     else:
         osets = ENC_OPTION_SETS
     res = []
@@ -114,8 +116,7 @@ def enc_correspondence(tier, rng, c, violations, soft_out=None):
                 c["enc-outside-model:" + str(e.get("meta"))] += 1
                 continue
             if e["meta"].get("empty"):
-                c["enc-outside-model:-empty"] += 1
-                continue
+                c["enc-empty-variant"] += 1
             if e["meta"]["first"] != 0 or e["meta"]["last"] != e["b0"] - 1:
                 c["enc-outside-model:positions"] += 1
                 continue
